@@ -565,8 +565,30 @@ def gen_greedy_thick(rng, N):
     return out
 
 
+def gen_greedy_longhaul(rng, N):
+    """winnable, but the chips sit at the far end of a path: between one and two budgets of
+    borrowing moves are needed, so the first play() gives up and a second play() on the same
+    solver finishes the job (its script must still certify the original divisor)"""
+    out = []
+    for _ in range(N):
+        n = rng.randint(2, 6)
+        perm = list(range(n))
+        rng.shuffle(perm)
+        E = {(min(perm[i], perm[i + 1]), max(perm[i], perm[i + 1])): 1 for i in range(n - 1)}
+        unit = n * (n - 1) // 2                       # borrows per chip hauled end to end
+        lo, hi = 10 * n // unit + 1, 20 * n // unit
+        k = rng.randint(lo, max(lo, hi))
+        d = [0] * n
+        d[perm[0]] = -k
+        d[perm[-1]] = k + rng.choice([0, 0, 1, 3])
+        g = {"n": n, "edges": gen.present_edges(rng, E), "names": gen.gen_names(rng, n)}
+        g.update(op="greedy", deg=d, _kind="longhaul", _genus=0, _band="high", _debt=f"longhaul k={k}")
+        out.append(g)
+    return out
+
+
 def gen_greedy(rng, N, nmax=6):
-    out = gen_greedy_thick(rng, max(1, N // 4))
+    out = gen_greedy_thick(rng, max(1, N // 4)) + gen_greedy_longhaul(rng, max(1, N // 8))
     for _ in range(N):
         g, E = gen.gen_graph(rng, 2, nmax)
         n = g["n"]
